@@ -215,6 +215,34 @@ def throttle_model(ctx):
     return dict(coverage=cov, violations=viols, level="model_checking", assumptions=["every started callback eventually calls Done (weak fairness)"])
 
 
+
+def cache_model(ctx):
+    """Exhaustive TLC run of spec/CacheEntry.tla: the design the per-note rules of CacheTrace.tla compare the real entry with."""
+    import os, shutil
+    from .common import SPEC, tlc, tlc_stats, MachineryError
+    d = os.path.join(ctx.workdir, "cache-mc")
+    os.makedirs(d, exist_ok=True)
+    for f in ("CacheOps.tla", "CacheEntry.tla"):
+        shutil.copy(os.path.join(SPEC, f), d)
+    subs, req, pop = ("{s1, s2, s3}", 2, 2) if ctx.tier == "quick" else ("{s1, s2, s3, s4}", 3, 3)
+    with open(os.path.join(d, "CacheEntry.cfg"), "w") as f:
+        f.write("SPECIFICATION Spec\nCONSTANTS Subscribers = %s\n MaxReq = %d\n MaxPopped = %d\n"
+                "INVARIANTS CountIsUses NeverNegative KeptWhileUsed QueuedOnlyIdle IdleIsQueued Gauges SubscribedBeforeFetch\n"
+                "PROPERTIES Released\nCHECK_DEADLOCK FALSE\n" % (subs, req, pop))
+    p = tlc("CacheEntry.tla", d, [], timeout=1800, workers=4)
+    if "No error has been found" not in p.stdout:
+        raise MachineryError("CacheEntry.tla does not satisfy its own properties (model bug):\n" + p.stdout[-2000:])
+    g, dist = tlc_stats(p.stdout)
+    cov = dict(states=dist, transitions=g, samples=[{"model": "spec/CacheEntry.tla Subscribers=%s MaxReq=%d MaxPopped=%d; invariants CountIsUses NeverNegative KeptWhileUsed "
+                                                     "QueuedOnlyIdle IdleIsQueued Gauges SubscribedBeforeFetch; liveness Released under WF" % (subs, req, pop)}],
+               rule="exhaustive TLC on CacheEntry.tla; its operators (CacheOps.tla) are replayed on every cache note of the gateway traces by CacheTrace.tla", exhaustive=False)
+    return dict(coverage=cov, violations=[], level="model_checking", assumptions=["the eviction timer eventually fires (weak fairness)"])
+
+
+PROPS["C09"] = dict(run=tables.combine(cache_model, gateway_run(["cache", "query", "win-evict"], ["msub", "munsub", "mreq", "note"])))
+TEXT["C09"] = _t("spec/CacheEntry.tla (one action per critical section of a cache entry: getSubscription, addSubscriber, Unsubscribe, delete / failed get, request start / end, timer pop, eviction callback) is model-checked exhaustively for count = users, kept while used, idle entries queued, gauges, subscribe-before-fetch and eventual release; on every replayed gateway schedule each cache note (taken inside those critical sections, tag verif) is replayed through the same operators (spec/CacheTrace.tla) and the logged use count, created flag, subscription flag, subscriber-set sizes and eviction outcome must equal the model's; plus MQ boundary rules (get only under an established event subscription, no duplicate subscription), nothing left after the (fake-time) eviction delay, gauges zero.",
+                 "TLC exhaustive on CacheEntry.tla + per-note conformance of the real cache entry (CacheTrace.tla) + observer rules on gateway traces")
+
 PROPS["C19"] = dict(run=tables.combine(throttle_model, gateway_run(["thr-ref1", "thr-ref2", "thr-reset1", "thr-reset2"], ["note", "mreq"])))
 TEXT["C19"] = _t("spec/Throttle.tla is model-checked exhaustively (bound, saturation, FIFO hand-over, every added callback eventually starts under any answer order); the real Throttle is driven directly and every Add/Done validated against it; at system level the thrAdd/thrDone notes of replayed schedules with reset/reference throttles of 1 and 2 are checked against the same transition rules, the limit, and emptiness at quiescence.",
                  "TLC exhaustive on Throttle.tla + trace validation of the real Throttle (ThrottleTrace.tla) + observer rules on gateway traces")
